@@ -34,20 +34,19 @@ fn run(batch: &str, idx: u64, seed: u64, tier: Tier) -> RunOut {
         let mut out = RunOut::default();
         out.evals = tmp.evals;
         out.decisions = tmp.decisions;
-        let expected = |k: &str| {
-            if idx % 2 == 0 {
-                k == "C04:model:step-not-explained"
-            } else {
-                k.starts_with("C04:monitor:mutex-exclusion") || k.starts_with("C04:unexpected-panic:assertion-failed--state-holder-is-none") || k == "C04:model:step-not-explained" || k.starts_with("C04:model:")
-            }
+        let expected = |k: &str| match idx % 3 {
+            0 => k == "C04:model:step-not-explained",
+            1 => k.starts_with("C04:monitor:mutex-exclusion") || k.starts_with("C04:unexpected-panic:assertion-failed--state-holder-is-none") || k.starts_with("C04:model:"),
+            _ => k.starts_with("C04:unexpected-panic:called--Result--unwrap") || k.starts_with("C04:model:"),
+        };
+        let known_key = match idx % 3 {
+            0 => "C04:known:F4:try-lock-after-poison-reports-wouldblock",
+            1 => "C04:known:F4:no-exclusion-after-poison",
+            _ => "C04:known:F4:locker-in-flight-when-holder-panics",
         };
         for v in tmp.violations {
             if expected(&v.key) {
-                out.violation(
-                    if idx % 2 == 0 { "C04:known:F4:try-lock-after-poison-reports-wouldblock" } else { "C04:known:F4:no-exclusion-after-poison" },
-                    v.detail,
-                    v.case,
-                );
+                out.violation(known_key, v.detail, v.case);
             } else {
                 out.violation(v.key, v.detail, v.case);
             }
